@@ -326,3 +326,39 @@ def sig_match(pattern, sig):
         elif str(sig[k]) != str(v):
             return False
     return True
+
+
+BUILTIN_EXNS = {"ValueError", "TypeError", "KeyError", "RuntimeError", "FileNotFoundError", "FileExistsError", "OSError",
+                "AttributeError", "AssertionError", "Exception"}
+
+
+def consts_projection(run):
+    """P-consts: the constants the model is written against vs the live classes (every check runs it)."""
+    import inspect
+    import shutil
+    import model
+    from universe import scratch_root, DEFAULT_NS
+    line = model.run_lines(["A consts"])[0]
+    m = dict(kv.split("=", 1) for kv in line.split(" "))
+    import hashstore.filehashstore as fhs
+    import hashstore.filehashstore_exceptions as fex
+    base = scratch_root()
+    try:
+        hs = fhs.FileHashStore({"store_path": os.path.join(base, "s"), "store_depth": 3, "store_width": 2, "store_algorithm": "SHA-256",
+                                "store_metadata_namespace": DEFAULT_NS})
+        live = {"default": ",".join(hs.default_algo_list), "other": ",".join(fhs.FileHashStore.other_algo_list),
+                "keys": ",".join(fhs.FileHashStore.property_required_keys)}
+    finally:
+        shutil.rmtree(base, ignore_errors=True)
+    for k, v in live.items():
+        run.case("P-consts", k, nontrivial=True, sample=None)
+        if m.get(k) != v:
+            run.disagree("P-consts", {"constant": k}, m.get(k), v, ["(every theorem that mentions the algorithm lists / required keys)"])
+    custom = {n: c for n, c in inspect.getmembers(fex, inspect.isclass) if c.__module__ == fex.__name__}
+    want = set(m["exns"].split(",")) - BUILTIN_EXNS
+    run.case("P-consts", "exceptions", nontrivial=True, sample=None)
+    if set(custom) != want:
+        run.disagree("P-consts", {"constant": "exception classes"}, sorted(want), sorted(custom), ["(outcome classes of every call)"])
+    for n, c in custom.items():
+        if c.__bases__ != (Exception,):
+            run.disagree("P-consts", {"constant": "bases of " + n}, "(Exception,)", str(c.__bases__), ["(which handler catches it: the model treats the classes as unrelated)"])
